@@ -484,6 +484,10 @@ def c08_cases():
     C.append(SpecCase('IdxAP', 'func IdxAP(a *[4]int32, i int) int32 { return a[i] }', [('a', 'arrptr4'), ('i', 'int32')],
                       lambda ex, st, P: z3.Or(P['a'].isnil, oob(P['i'], 4)), None,
                       lambda ex, st0, st, P, r: [('value', r == aelem(ex, st0, P['a'], P['i']))]))
+    # the operand of a shift is evaluated also when the count makes the result 0 (here: its nil dereference must panic)
+    C.append(SpecCase('ShBigC', 'func ShBigC(a *[4]int32) int32 { return a[1] << 40 }', [('a', 'arrptr4')],
+                      lambda ex, st, P: P['a'].isnil, None,
+                      lambda ex, st0, st, P, r: [('value', r == 0)]))
     C.append(SpecCase('SetAP', 'func SetAP(a *[4]int32, i int, v int32) { a[i] = v }', [('a', 'arrptr4'), ('i', 'int32'), ('v', 'int32')],
                       lambda ex, st, P: z3.Or(P['a'].isnil, oob(P['i'], 4)), None,
                       lambda ex, st0, st, P, r: [('stored', aelem(ex, st, P['a'], P['i']) == P['v'])]))
@@ -518,8 +522,11 @@ def c08_cases():
     C.append(SpecCase('Mk2', 'func Mk2(n, m int) []int32 { return make([]int32, n, m) }', [('n', 'int32'), ('m', 'int32')],
                       lambda ex, st, P: z3.Or(P['n'] < 0, P['m'] < P['n']), None,
                       lambda ex, st0, st, P, r: [('len/cap', z3.And(r.fields['$length'] == P['n'], r.fields['$capacity'] == P['m'], z3.Not(r.fields['$nil'])))]))
+    # make(map[K]V, n): n is a hint, a negative hint is NOT a panic (the specification makes a negative size a run-time panic
+    # for slices and channels only; gc creates the map).  My first version of this case demanded the panic GopherJS raised:
+    # that was the check encoding the code, corrected when a sub-agent's differential run showed Go's behaviour.
     C.append(SpecCase('MkMap', 'func MkMap(n int) map[int]int { return make(map[int]int, n) }', [('n', 'int32')],
-                      lambda ex, st, P: P['n'] < 0, 'makemap: size out of range',
+                      lambda ex, st, P: z3.BoolVal(False), None,
                       lambda ex, st0, st, P, r: [('not nil', z3.Not(r.fields['$nil']))]))
     return C
 
